@@ -168,6 +168,11 @@ def phc_part(res, rng):
         for _k in range(n):
             scale = rng.choice([1e-6, 1e-4, 1e-2, 1.0])      # jumps of several orders of magnitude
             d, e, o = cfloat.encode(rng.uniform(0, 0.2) * scale), cfloat.encode(rng.uniform(0, 0.5) * scale), cfloat.encode(rng.uniform(-0.05, 0.05) * scale)
+            if rng.random() < 0.15:
+                # round figures: exactly one second (chronyd's values right after its start), exactly zero, powers of two
+                one, zero = cfloat.encode(1.0), cfloat.encode(0.0)
+                d, e = rng.choice([(one, one), (one, e), (d, one), (zero, zero), (one, zero), (cfloat.encode(2.0), cfloat.encode(0.5))])
+                o = rng.choice([o, cfloat.encode(-0.25), cfloat.encode(1.0), zero])
             phc = rng.choice([0, 0, 1, 12345, rng.randrange(10 ** 6), rng.randrange(2 ** 40), 2 ** 32 - 1, 2 ** 32, 2 ** 31 - 1, 2 ** 31, 65535])
             t += rng.randrange(1, 20)
             parts += ["r", str(d), str(e), str(o), str(rng.randrange(3)), str(itv), "0", "0", "0", str(phc), str(t), str(rng.randrange(NS))]
@@ -213,9 +218,10 @@ def poller_part(res, rng):
         start = rng.randrange(10, 10 ** 5) * NS
         cfg = rng.choice([0x50484330, 0x50484331, 12345])
         steps, t = [], start + NS
-        for _k in range(rng.randrange(1, 5)):
+        for _k in range(rng.randrange(1, 7)):
             phc = rng.choice([0, 7, 99999999, 100000000, 250000000, 4294967295, 4294967296, 2147483647, 2147483648, 123456789012, 2 ** 62, rng.randrange(10 ** 13)])
-            steps.append((t, 1, rng.choice([0, 1000, 10 ** 6]), 0, phc, cfg, rng.randrange(1, 60000)))
+            # chronyd may select another source for a while and come back to the PHC
+            steps.append((t, 1, rng.choice([0, 1000, 10 ** 6]), 0, phc, rng.choice([cfg, cfg, cfg ^ 1, 0x4E545031]), rng.randrange(1, 60000)))
             t += NS + rng.randrange(NS)
         scripts.append((start, cfg, steps))
     lines = [_poller.line_of(*sc) for sc in scripts]
